@@ -18,7 +18,8 @@ Stand-ins for collaborators (their stated contract is what the lemmas assume abo
   PMap          a parameter collection viewed as a name -> value map,
   BlockStub     what Core/Assembly/FuelHandler need from a Block: a name, a symmetry factor, a (present) pin grid, flags,
   AxialStub     the assembly's axial grid: cell (0, 0, k) -> a locator of that grid,
-  PoolStub      the spent-fuel pool: add(a) makes `a` a child of the pool (its own placement rule is not under contract),
+  PoolStub      the spent-fuel pool (subclass of the real class with add/remove/getChildren replaced): add(a) makes `a` a
+                child of the pool (its own placement rule is not under contract),
   ExcoreStub    Reactor.excore: name -> ex-core structure (dict and attribute access),
   OperatorStub  FuelHandler.o: holds the reactor,
   ParametersStub  the module armi.reactor.parameters as seen from cores.py (the `assigned` flags that add/remove reset
@@ -36,6 +37,7 @@ HexGrid = repo("armi.reactor.grids.hexagonal:HexGrid")
 IndexLocation = repo("armi.reactor.grids.locations:IndexLocation")
 CoordinateLocation = repo("armi.reactor.grids.locations:CoordinateLocation")
 FuelHandler = repo("armi.physics.fuelCycle.fuelHandlers:FuelHandler")
+SpentFuelPool = repo("armi.reactor.spentFuelPool:SpentFuelPool")
 
 
 # ----------------------------------------------------------------------------- stand-ins (collaborators)
@@ -84,8 +86,9 @@ class AxialStub:
         return IndexLocation(ijk[0], ijk[1], ijk[2], self)
 
 
-class PoolStub:
-    """spent-fuel pool: add(a) makes `a` a child of the pool"""
+class PoolStub(SpentFuelPool):
+    """spent-fuel pool (a SpentFuelPool as far as isinstance goes; the three methods the code under contract calls are
+    replaced): add(a) makes `a` a child of the pool, remove(a) takes it out, getChildren() lists the children"""
 
     def add(self, a):
         a.parent = self
@@ -151,7 +154,7 @@ def hexgrid(symmetry):
 
 def block(name, k, grid, stationary):
     return new(BlockStub, name=name, flags=(["GRID_PLATE"] if stationary else ["FUEL"]), symmetryFactor=1.0,
-               spatialGrid=new(Marker), spatialLocator=IndexLocation(0, 0, k, grid), parent=None, p=new(PMap))
+               spatialGrid=new(Marker), spatialLocator=IndexLocation(0, 0, k, grid), parent=None, p=new(PMap, ztop=10.0 * (k + 1)))
 
 
 def assembly(num, nBlocks, label, stationary=()):
@@ -370,3 +373,183 @@ def remove_of_a_stranger_is_refused_and_changes_nothing(n: int, i1: int, j1: int
         assert at(core, i1, j1) is a1
     if n >= 2:
         assert at(core, i2, j2) is a2
+
+
+# ----------------------------------------------------------------------------- Assembly.moveTo
+@lemma(gen=GEN, stubs=STUBS, overrides=OVERRIDES, timeout=60)
+def move_puts_the_assembly_at_the_locator_and_refuses_foreign_grids(n: int, i1: int, j1: int, i2: int, j2: int, i: int, j: int, fromDb: bool, foreign: bool):
+    """Assembly.moveTo(locator): with a locator of the parent's grid the assembly sits there, the location table finds it
+    there, the other assemblies' entries are untouched and the move is counted; a locator of any other grid is refused
+    (ValueError) without any change.  (That the OLD location is released is a separate clause, see
+    contracts/pending/C14_core_finding.py.)"""
+    n = choose(n, 1, 2)
+    core, r, pool, a1, a2 = populated(n, i1, j1, i2, j2, False, True, 4, 9)
+    assume(inv(core, pool))
+    assume(n < 2 or (i, j) != (i2, j2))  # the target is not occupied by somebody else
+    if fromDb:
+        a1.lastLocationLabel = "database"
+    old = a1.spatialLocator
+    if foreign:
+        g2 = hexgrid("full")
+        g2.armiObject = new(Marker)
+        try:
+            a1.moveTo(g2[i, j, 0])
+            refused = False
+        except ValueError:
+            refused = True
+        assert refused, "a locator of another grid is refused"
+        assert inv(core, pool) and a1.spatialLocator is old and a1.p.numMoves == 0
+        return
+    a1.moveTo(core.spatialGrid[i, j, 0])
+    assert a1.parent is core and a1.spatialLocator.grid is core.spatialGrid
+    assert (a1.spatialLocator.i, a1.spatialLocator.j, a1.spatialLocator.k) == (i, j, 0), "sits where it was put"
+    assert at(core, i, j) is a1, "and is found there"
+    assert a1.p.numMoves == (0 if fromDb else 1) and (fromDb or a1.p.daysSinceLastMove == 0.0)
+    assert len(core._children) == n and core._children[0] is a1
+    if n == 2:
+        assert at(core, i2, j2) is a2 and (a2.spatialLocator.i, a2.spatialLocator.j) == (i2, j2) and a2.p.numMoves == 0, "nobody else moved"
+    assert len(a1._children) == 2 and a1._children[0].name == "B0001-000" and a1._children[1].name == "B0001-001", "contents untouched"
+
+
+# ----------------------------------------------------------------------------- FuelHandler.swapAssemblies
+def names(a):
+    return [b.name for b in a._children]
+
+
+def stationary_of(mask, nBlocks):
+    return tuple(k for k in range(nBlocks) if (mask // (2 ** k)) % 2 == 1)
+
+
+def swap_world(n, i1, j1, i2, j2, i3, j3, m1, m2, nb):
+    """a core with a1 (nb blocks, stationary pattern m1), a2 (nb blocks, pattern m2) and, for n == 3, a bystander a3"""
+    core, r, pool = world(True, True, 4, 9)
+    a1 = assembly(1, nb, "001-001", stationary_of(m1, nb))
+    a2 = assembly(2, nb, "002-001", stationary_of(m2, nb))
+    a3 = assembly(3, 1, "002-002")
+    place(core, a1, i1, j1)
+    place(core, a2, i2, j2)
+    if n == 3:
+        place(core, a3, i3, j3)
+    fh = new(FuelHandler, o=new(OperatorStub, r=r), moved=[])
+    return core, r, pool, fh, a1, a2, a3
+
+
+SWAPGEN = dict(GEN, n=(2, 3), i3=(-3, 3), j3=(-3, 3), m1=(0, 3), m2=(0, 3), nb=(2, 2))
+
+
+@lemma(gen=SWAPGEN, stubs=STUBS, overrides=OVERRIDES, timeout=90)
+def swap_exchanges_the_two_locations_and_nothing_else(n: int, i1: int, j1: int, i2: int, j2: int, i3: int, j3: int, m1: int, m2: int, dz: float):
+    """FuelHandler.swapAssemblies(a1, a2) on a core with 2..3 assemblies at symbolic cells, two blocks each with every
+    stationary (grid plate) pattern: a1 sits where a2 was and vice versa, the bystander did not move, the child list
+    (the inventory) is the same list, Inv holds; travelling blocks travel, stationary blocks keep their core position
+    and exchange assemblies; differing stationary patterns are refused without moving anything."""
+    n = choose(n, 2, 3)
+    m1 = choose(m1, 0, 3)
+    m2 = choose(m2, 0, 3)
+    core, r, pool, fh, a1, a2, a3 = swap_world(n, i1, j1, i2, j2, i3, j3, m1, m2, 2)
+    assume(inv(core, pool))
+    b1, b2 = list(a1._children), list(a2._children)
+    for b in b2:
+        b.p.ztop = b.p.ztop + dz  # the two assemblies need not have the same block elevations
+    try:
+        fh.swapAssemblies(a1, a2)
+        done = True
+    except ValueError:
+        done = False
+    assert done == (m1 == m2), "refused exactly when the stationary blocks of the two assemblies do not line up"
+    assert inv(core, pool), "Inv holds afterwards (also after a refusal)"
+    assert len(core._children) == n and core._children[0] is a1 and core._children[1] is a2, "same assemblies in the core, none duplicated or lost"
+    if not done:
+        assert at(core, i1, j1) is a1 and at(core, i2, j2) is a2 and a1.p.numMoves == 0 and a2.p.numMoves == 0, "nothing moved"
+        return
+    assert (a1.spatialLocator.i, a1.spatialLocator.j) == (i2, j2) and (a2.spatialLocator.i, a2.spatialLocator.j) == (i1, j1), "each sits where the other was"
+    assert at(core, i2, j2) is a1 and at(core, i1, j1) is a2, "location lookups agree"
+    assert len(core.childrenByLocator) == n
+    assert a1.p.numMoves == 1 and a2.p.numMoves == 1
+    if n == 3:
+        assert core._children[2] is a3 and at(core, i3, j3) is a3 and (a3.spatialLocator.i, a3.spatialLocator.j) == (i3, j3) and a3.p.numMoves == 0, "the bystander did not move"
+    for k in range(2):
+        if k in stationary_of(m1, 2):
+            assert a1._children[k] is b2[k] and a2._children[k] is b1[k], "stationary blocks stay at their core position: they exchange assemblies"
+        else:
+            assert a1._children[k] is b1[k] and a2._children[k] is b2[k], "travelling blocks travel with their assembly"
+        assert a1._children[k].parent is a1 and a2._children[k].parent is a2
+        assert a1._children[k].spatialLocator.k == k and a2._children[k].spatialLocator.k == k, "block order / axial index unchanged"
+    assert len(a1._children) == 2 and len(a2._children) == 2
+    assert eq(b1[0].p.ztop, 10.0) and eq(b1[1].p.ztop, 20.0) and eq(b2[0].p.ztop, 10.0 + dz) and eq(b2[1].p.ztop, 20.0 + dz), "block elevations untouched"
+    assert len(fh.moved) == 2 and fh.moved[0] is a1 and fh.moved[1] is a2
+
+
+# ----------------------------------------------------------------------------- FuelHandler.dischargeSwap
+@lemma(gen=GEN, stubs=STUBS, overrides=OVERRIDES, timeout=90)
+def discharge_swap_puts_the_incoming_assembly_at_the_outgoing_place(n: int, i1: int, j1: int, i2: int, j2: int, track: bool, fromPool: bool, rings: int):
+    """FuelHandler.dischargeSwap(incoming, outgoing), no block designated stationary, 1..2 assemblies in the core, the
+    incoming one fresh or stored in the pool, spent-fuel tracking on / off: the incoming assembly sits at the outgoing
+    one's place, the outgoing one is in the pool (tracked) or gone for good (not findable by name), the bystander did
+    not move, nothing is duplicated or lost, Inv holds."""
+    n = choose(n, 1, 2)
+    core, r, pool = world(track, True, rings, 9)
+    out = assembly(1, 2, "001-001")
+    by = assembly(2, 1, "002-001")
+    inc = assembly(7, 2, "SFP" if fromPool else "LoadQueue")
+    place(core, out, i1, j1)
+    if n == 2:
+        place(core, by, i2, j2)
+    if fromPool:
+        register_pooled(core, pool, inc)
+        inc.spatialLocator = IndexLocation(2, 0, 0, new(Marker))  # a cell of the pool's own grid
+    assume(inv(core, pool))
+    assume(rings >= hexring(i1, j1))
+    fh = new(FuelHandler, o=new(OperatorStub, r=r), moved=[])
+    incBlocks, outBlocks = list(inc._children), list(out._children)
+    fh.dischargeSwap(inc, out)
+    assert inv(core, pool), "Inv preserved"
+    assert inc.parent is core and (inc.spatialLocator.i, inc.spatialLocator.j, inc.spatialLocator.k) == (i1, j1, 0) and inc.spatialLocator.grid is core.spatialGrid, "incoming sits at the outgoing place"
+    assert at(core, i1, j1) is inc, "and is found there"
+    assert len(core._children) == n and core._children[n - 1] is inc
+    assert out.spatialLocator.grid is None, "the outgoing assembly holds no location of the core any more"
+    if track:
+        assert out.parent is pool and len(pool.kids) == 1 and pool.kids[0] is out, "outgoing is in the pool, the incoming one left it"
+        assert core.assembliesByName["A0001"] is out and core.blocksByName["B0001-001"] is outBlocks[1]
+    else:
+        assert out.parent is None and len(pool.kids) == 0
+        assert "A0001" not in core.assembliesByName and "B0001-000" not in core.blocksByName and "B0001-001" not in core.blocksByName, "purged: never returned again"
+    assert core.assembliesByName["A0007"] is inc and core.blocksByName["B0007-000"] is incBlocks[0] and core.blocksByName["B0007-001"] is incBlocks[1]
+    assert inc._children[0] is incBlocks[0] and inc._children[1] is incBlocks[1] and out._children[0] is outBlocks[0] and out._children[1] is outBlocks[1], "contents untouched"
+    if n == 2:
+        assert core._children[0] is by and at(core, i2, j2) is by and (by.spatialLocator.i, by.spatialLocator.j) == (i2, j2) and by.p.numMoves == 0, "bystander untouched"
+    assert inc.p.multiplicity == 1 and out.p.multiplicity == 1, "full core: every assembly stands for itself"
+    assert core.numRings == rings
+
+
+# ----------------------------------------------------------------------------- lookups
+@lemma(gen=dict(GEN, ring=(1, 3), pos=(1, 12)), stubs=STUBS, overrides=OVERRIDES, timeout=60)
+def lookups_by_location_and_name_agree_with_the_children(n: int, i1: int, j1: int, i2: int, j2: int, ring: int, pos: int):
+    """In any core state satisfying Inv (0..2 assemblies at symbolic cells): getAssemblyWithStringLocation(label) returns
+    the assembly whose cell is the labelled (ring, position), None when that cell is empty; getAssemblyByName /
+    getBlockByName return the children / their blocks and raise KeyError for unknown names."""
+    n = choose(n, 0, 2)
+    ring = choose(ring, 1, 3)
+    pos = choose(pos, 1, 12)
+    assume(pos <= (1 if ring == 1 else 6 * (ring - 1)))
+    core, r, pool, a1, a2 = populated(n, i1, j1, i2, j2, False, True, 4, 9)
+    assume(inv(core, pool))
+    label = "%03d-%03d" % (ring, pos)
+    ci, cj = HexGrid.getIndicesFromRingAndPos(ring, pos)  # the labelled cell (bijection proved in C07)
+    found = core.getAssemblyWithStringLocation(label)
+    if n >= 1 and (i1, j1) == (ci, cj):
+        assert found is a1
+    elif n >= 2 and (i2, j2) == (ci, cj):
+        assert found is a2
+    else:
+        assert found is None, "an empty cell holds nobody"
+    if n >= 1:
+        assert core.getAssemblyByName("A0001") is a1 and core.getBlockByName("B0001-001") is a1._children[1]
+    if n >= 2:
+        assert core.getAssemblyByName("A0002") is a2 and core.getBlockByName("B0002-000") is a2._children[0]
+    try:
+        core.getAssemblyByName("A0007")
+        known = True
+    except KeyError:
+        known = False
+    assert not known, "a name that is not in the core is not found"
